@@ -53,6 +53,15 @@ CHECKS = {
         "Trusted: mc/refs/widths.py cell model (wcwidth); zero-width characters are not compared inside rendered rows.",
         "DESIGN.md §4 C03",
     ),
+    "C02": (
+        MC,
+        "bounded-exhaustive closure over canvas expression trees (leaves -> unary -> binary -> unary -> binary-with-leaves -> unary), every real canvas compared cell-for-cell with a grid-of-cells reference",
+        "17 leaf canvases (wide/combining/DEC content, run-length attributes, cursor, pop-up, solid) are closed under every unary operation, every "
+        "binary operation over a pool and a third layer with leaves; each result's text, attribute, charset flag, size and coordinates are compared "
+        "with mc/refs/grid.py; operands are re-read, finalized canvases must refuse mutation, and content_delta applied to the old rows must give the new content.",
+        "Trusted: mc/refs/grid.py; expression depth <= 3 layers; delta is demanded on aligned geometries only (misaligned ones are a listed known finding).",
+        "DESIGN.md §4 C02",
+    ),
 }
 
 PENDING_REASON = "check not built yet in this round (see DESIGN.md Appendix B build order); no claim is made"
